@@ -10,7 +10,8 @@
    forms, value and content params), msg/plural, css, log, foreach/ifempty,
    switch, if, let, print. *)
 From Soy Require Import Model.Bytes Model.Num Model.Values Model.Outcome Model.Ast
-  Model.Escape Model.Interp Spec.Cmd Proofs.ScopeRel Proofs.ScopeProofs Proofs.ScopeSpecProofs.
+  Model.Escape Model.Interp Spec.Expr Spec.Cmd Spec.CmdIndep Proofs.ScopeRel Proofs.ScopeProofs Proofs.ScopeSpecProofs
+  Proofs.ScopeIndepProofs Proofs.ScopeIndepBridge.
 Open Scope N_scope.
 
 (* ------------------------------------------------------------------ *)
@@ -51,6 +52,49 @@ Theorem command_restores_scope : forall cf fuel c st en entry v st',
   walk cf fuel c st = (Ok v, st') -> ctx st' = ctx st /\ mode st' = mode st.
 Proof. exact walk_restores_scope. Qed.
 Print Assumptions command_restores_scope.
+
+(* ------------------------------------------------------------------ *)
+(* C02 composed with C01: the same theorem against a Spec that shares NO
+   operator / function / access clause with the model.
+
+   Spec/CmdIndep.v [render_spec_indep] = the command clauses of Spec/Cmd.v
+   (blocks, lets, loops, calls: lexical environments) with every expression
+   that [of_node] can read back (literals, list/map literals, data references
+   and $ij with all access forms, the thirteen built-in functions, unary and
+   binary operators, ?: and the ternary) evaluated by Spec/Expr.v [eval_spec]
+   -- the declarative expression semantics of C01, written from the language
+   description over its own syntax, with its own operator semantics
+   (sem_strict, apply_fn_spec) and NO fuel.  Only an expression that mentions
+   index/isFirst/isLast or a compile-time global keeps Spec/Cmd.v's clause.
+
+   The statement has two escape clauses, both about the comparison and not
+   about the code: the model ran out of fuel (excluded by giving it more:
+   C06 render_fuel_monotone), or the composed Spec leaves the language's
+   answer open (OutOfModel: a float result that is not a binary64, an integer
+   outside int64, randomInt).  Otherwise: same bytes, same outcome class
+   (error MESSAGES are not compared: Spec/Expr.v has one). *)
+Theorem exec_impl_spec_indep : forall cf fuel name data_id data first_id,
+  wf_registry (c_reg cf) = true ->
+  let r := render cf fuel name data_id data None None first_id in
+  let s := render_spec_indep cf fuel name data first_id in
+  rr_outcome r = OutOfFuel \/ sr_outcome s = OutOfModel \/
+  (concat_b (rr_writes r) = sr_out s /\ outcome_class_agrees (rr_outcome r) (sr_outcome s)).
+Proof. exact exec_impl_spec_indep_lemma. Qed.
+Print Assumptions exec_impl_spec_indep.
+
+(* the two Specs, level by level (expressions, commands, lets) *)
+Theorem specs_agree : forall cf, wf_registry (c_reg cf) = true ->
+  forall fuel, lv_agree (spec_level cf fuel) (indep_level cf fuel).
+Proof. exact indep_levels_agree. Qed.
+Print Assumptions specs_agree.
+
+(* one expression: Spec/Cmd.v's clause against Spec/Expr.v, positions and the
+   quoted source text of string literals being irrelevant *)
+Theorem expression_clause_is_C01 : forall cf fuel en n nid x,
+  wf_registry (c_reg cf) = true -> of_node n = Some x ->
+  cagree (sE (l_eval (spec_level cf fuel) en n) nid) (sE (Expr.eval_spec [] en (c_ij cf) x) nid).
+Proof. exact expr_bridge. Qed.
+Print Assumptions expression_clause_is_C01.
 
 (* ------------------------------------------------------------------ *)
 (* the two scoping sentences, as lemmas of the Spec *)
@@ -132,6 +176,22 @@ Proof. vm_compute. reflexivity. Qed.
 Example C02_example_model :
   let r := render ex_cf 50 (b "ns.t0") 2 ex_data None None 1000 in
   concat_b (rr_writes r) = b "91150611" /\ rr_outcome r = Ok tt.
+Proof. vm_compute. split; reflexivity. Qed.
+(* the composed Spec on the same bundle; [1,2]-style operands go through Spec/Expr.v, index($a) falls back *)
+Example C02_example_indep :
+  render_spec_indep ex_cf 50 (b "ns.t0") ex_data 1000 = {| sr_out := b "91150611"; sr_outcome := Ok tt |}.
+Proof. vm_compute. reflexivity. Qed.
+Example C02_example_of_node :
+  of_node (NListLit 0 [NInt 0 5; NInt 0 6]) = Some (EList [EInt 5; EInt 6]) /\
+  of_node (NBin OAdd 3 (NDataRef 4 ex_a [NAccKey 5 true (b "k")]) (NFunc 7 (b "length") [NDataRef 8 ex_a []])) =
+    Some (EBin BAdd (ERef ex_a [AKey true (b "k")]) (ECall FLength [ERef ex_a []])) /\
+  of_node (NFunc 0 (b "index") [ex_ref]) = None /\
+  indep_coverage (c_reg ex_cf) = (8, 9).
+Proof. vm_compute. repeat split; reflexivity. Qed.
+(* the composed Spec has no fuel for expressions: a value where the fuelled one gives up *)
+Example C02_example_indep_nofuel :
+  l_eval (indep_level ex_cf 1) [] (NNot 0 (NNot 0 (NNot 0 (NBool 0 true)))) 5 = Ok (VBool false, 5) /\
+  l_eval (spec_level ex_cf 1) [] (NNot 0 (NNot 0 (NNot 0 (NBool 0 true)))) 5 = OutOfFuel.
 Proof. vm_compute. split; reflexivity. Qed.
 (* and an erroring one: too little fuel is reported by both sides alike *)
 Example C02_example_fuel :
